@@ -1,257 +1,289 @@
 """
 C19 -- parameter sets survive save/load and stay consistent under any call sequence.
 
-Per-method effect summaries (which attributes of self a method reads / writes)
-and small shape rules decide that the object is a dictionary model over ONE
-store (self.parameters); the file format is decided as writer/reader agreement;
-the load-time coercion by enumerating the paths of dumbtypecheck.  By induction
-over the call sequence these per-call facts give the history statement.
+E7 (xfabsa/objeval.py): the class is *evaluated* on small generic models -- a store with a few generic keys whose
+values are symbolic (a float, an int, a blank-free word, an arbitrary object), files as line buffers of symbolic text.
+  store     every mutator followed by every getter: the getter shows the value the mutator wrote and the untouched keys
+            keep theirs (by induction over the call sequence: one store, the dictionary model)
+  vary      varied values follow the order given to set_varylist, in getter and setter; the assertions reject unknown /
+            non-variable names and a wrong number of values
+  file      writer format `name value\\n`; reader on hand-written lines (hyphen rule, malformed lines skipped);
+            save -> load round trip per kind of value through the abstract semantics of str/float/int
+  coerce    dumbtypecheck per kind of stored value
+No method body is matched against a template: a method may be restructured freely as long as E7 can evaluate it.
 """
 import ast
 
 from xfabsa import core
 from xfabsa.core import AnalysisError
+from xfabsa.poly import Rat, func_atom
+from xfabsa.symeval import Obj, RaiseReached
+from xfabsa.objeval import ObjEvaluator, FileSystem, PyRaise, Sym, SStr, Text, num_atom, okey, exc_name_of
 
-STORE = "parameters"
-VALUE_GETTERS = {"get": set(), "get_parameters": set(), "get_variable_values": {"varylist"},
-                 "saveparameters": set(), "update_other": set()}
-VALUE_WRITERS = ("addpar", "set", "set_parameters", "set_variable_values", "update_yourself", "loadparameters", "dumbtypecheck")
-
-
-def self_attr(node):
-    if isinstance(node, ast.Attribute) and isinstance(node.value, ast.Name) and node.value.id == "self":
-        return node.attr
-    return None
+NODE = ast.Constant(value=0)
+NODE.lineno = 0
+GETTERS = ("get", "get_parameters", "get_variable_values", "saveparameters", "update_other")
+MUTATORS = ("set", "set_parameters", "addpar", "set_variable_values", "update_yourself", "loadparameters")
 
 
-def effects(fn):
-    """-> (reads, writes): attributes of self read / written (rebinding, element store, mutating method call)"""
-    reads, writes = set(), set()
-    for node in ast.walk(fn):
-        a = self_attr(node)
-        if a is not None:
-            if isinstance(node.ctx, ast.Store):
-                writes.add(a)
-            else:
-                reads.add(a)
-        if isinstance(node, (ast.Assign, ast.AugAssign)):
-            for t in (node.targets if isinstance(node, ast.Assign) else [node.target]):
-                if isinstance(t, ast.Subscript):
-                    b = self_attr(t.value)
-                    if b is not None:
-                        writes.add(b)
-        if isinstance(node, ast.Call) and isinstance(node.func, ast.Attribute):
-            b = self_attr(node.func.value)
-            if b is not None and node.func.attr in ("update", "append", "pop", "clear", "setdefault", "remove", "extend", "sort", "insert"):
-                writes.add(b)
-            if isinstance(node.func.value, ast.Name) and node.func.value.id == "self" and node.func.attr not in ("parameters",):
-                # call of another method: its effects are added by the caller of effects() through the call graph
-                pass
-    return reads, writes
+class World:
+    """one evaluator + file system + helpers to drive the class"""
+
+    def __init__(self, mod):
+        self.mod = mod
+        self.ev = ObjEvaluator(mod, max_depth=10)
+        self.fs = FileSystem(self.ev)
+
+    def new(self, **kw):
+        return self.ev.instantiate("parameters", [], dict(kw), NODE)
+
+    def par(self, name, value, **kw):
+        return self.ev.instantiate("par", [name, value], dict(kw), NODE)
+
+    def call(self, obj, meth, *args, **kw):
+        fn = self.ev.find_method(obj, meth)
+        if fn is None:
+            raise AnalysisError("anchor vanished: method %s of parameters.parameters" % meth)
+        return self.ev.call_bound(fn, obj, list(args), dict(kw), NODE)
+
+    def outcome(self, obj, meth, *args):
+        try:
+            return "ok", self.call(obj, meth, *args)
+        except (PyRaise, RaiseReached) as e:
+            return "raise", exc_name_of(e)
+
+    def other(self, **attrs):
+        return self.ev.new_obj("other", None, **attrs)
 
 
-def method_calls(fn):
-    return {n.func.attr for n in ast.walk(fn) if isinstance(n, ast.Call) and isinstance(n.func, ast.Attribute)
-            and isinstance(n.func.value, ast.Name) and n.func.value.id == "self"}
+def store_of(p):
+    s = p.attrs.get("parameters")
+    if not isinstance(s, dict):
+        raise AnalysisError("parameters.parameters is not a dictionary after construction")
+    return s
 
 
-def txt(node):
-    return core.unparse(node).replace(" ", "").replace('"', "'")
+def same(a, b):
+    return okey(a) == okey(b)
+
+
+def varied(w, names_values, order):
+    """object with can_vary parameters added in the given order and varylist set to `order`"""
+    p = w.new()
+    for nm, v in names_values:
+        w.call(p, "addpar", w.par(nm, v, can_vary=True))
+    w.call(p, "set_varylist", list(order))
+    return p
 
 
 def run(ctx):
-    ctx.rule("store", "value getters read values only from self.parameters; every value mutator writes self.parameters")
-    ctx.rule("shape", "get/set/get_parameters/set_parameters/addpar/update_* have the dictionary-model shape")
-    ctx.rule("vary", "varied values follow self.varylist order in getter and setter; set_varylist asserts membership then stores")
-    ctx.rule("file", "writer '%s %s\\n' and reader split(' ') agree on separator and arity; hyphen -> underscore; type check after load")
-    ctx.rule("coerce", "dumbtypecheck: only str touched; float first (else stripped string), then int (else the float), int iff equal")
+    ctx.rule("store", "every mutator followed by every getter: one store, untouched keys keep their values (E7 evaluation)")
+    ctx.rule("shape", "get/set/get_parameters/addpar/update_* on the generic two-key model")
+    ctx.rule("vary", "varied values follow the order given to set_varylist in getter and setter; assertions reject bad lists")
+    ctx.rule("file", "writer 'name value\\n'; reader on hand-written lines (hyphen -> underscore, malformed lines skipped); save/load round trip per kind")
+    ctx.rule("coerce", "dumbtypecheck per kind: non-strings untouched, words stripped, float text -> float, int text -> int")
     mod = core.module("xfab/parameters.py")
     ctx.saw(mod)
-    cls = "parameters"
-    k = mod.klass(cls)
+    k = mod.klass("parameters")
+    mod.klass("par")
     meths = {n.name: n for n in k.body if isinstance(n, ast.FunctionDef)}
-    need = set(VALUE_GETTERS) | set(VALUE_WRITERS) | {"__init__", "set_varylist"}
+    need = set(GETTERS) | set(MUTATORS) | {"__init__", "set_varylist", "dumbtypecheck"}
     missing = need - set(meths)
     if missing:
         raise AnalysisError("anchor vanished: methods %s of parameters.parameters" % sorted(missing))
     for m in meths.values():
         ctx.saw(mod, "parameters." + m.name)
-    eff = {n: effects(f) for n, f in meths.items()}
-    # transitive through self-method calls
-    for _ in range(4):
-        for n, f in meths.items():
-            for c in method_calls(f):
-                if c in eff:
-                    eff[n] = (eff[n][0] | eff[c][0], eff[n][1] | eff[c][1])
-    for g, extra in VALUE_GETTERS.items():
-        r, w = effects(meths[g])
-        other = r - {STORE} - extra
-        ctx.check(STORE in r and not other and not w, "C19:store:getter:%s" % g,
-                  "%s reads %s and writes %s: values must come from self.%s only (a getter that reads another attribute goes "
-                  "stale after set())" % (g, sorted(r), sorted(w), STORE), core.loc(mod, meths[g]),
-                  sample={"method": g, "reads": sorted(r), "writes": sorted(w)})
-    for wname in VALUE_WRITERS:
-        r, w = eff[wname]
-        ctx.check(STORE in w, "C19:store:writer:%s" % wname,
-                  "%s does not write self.%s (writes %s)" % (wname, STORE, sorted(w)), core.loc(mod, meths[wname]))
-    # nobody else rebinds the store
-    rebinders = [n for n, f in meths.items() for x in ast.walk(f)
-                 if self_attr(x) == STORE and isinstance(x.ctx, ast.Store)]
-    ctx.check(sorted(set(rebinders)) == ["__init__"], "C19:store:single-binding",
-              "self.%s is rebound in %s (only __init__ may bind it)" % (STORE, sorted(set(rebinders))), core.loc(mod, k))
-    # ---- shapes
-    def body(n):
-        return core.body_wo_doc(meths[n])
 
-    def arg(n, i):
-        return meths[n].args.args[i].arg
-    b = body("get")
-    ok = len(b) == 1 and isinstance(b[0], ast.Return) and txt(b[0].value) == "self.parameters[%s]" % arg("get", 1)
-    ctx.check(ok, "C19:shape:get", "get(name) does not return self.parameters[name]", core.loc(mod, meths["get"]))
-    b = body("set")
-    ok = len(b) == 1 and txt(b[0]) == "self.parameters[%s]=%s" % (arg("set", 1), arg("set", 2))
-    ctx.check(ok, "C19:shape:set", "set(name, value) does not store value at self.parameters[name]", core.loc(mod, meths["set"]))
-    b = body("get_parameters")
-    ctx.check(len(b) == 1 and isinstance(b[0], ast.Return) and txt(b[0].value) == "self.parameters", "C19:shape:get_parameters",
-              "get_parameters does not return the store", core.loc(mod, meths["get_parameters"]))
-    b = body("set_parameters")
-    ok = [txt(s) for s in b] == ["self.parameters.update(%s)" % arg("set_parameters", 1), "self.dumbtypecheck()"]
-    ctx.check(ok, "C19:shape:set_parameters", "set_parameters is not update(d) followed by dumbtypecheck()", core.loc(mod, meths["set_parameters"]))
-    a = txt(ast.Module(body=body("addpar"), type_ignores=[]))
-    p = arg("addpar", 1)
-    ctx.check(("self.parameters[%s.name]=%s.value" % (p, p)) in a, "C19:shape:addpar",
-              "addpar does not store par.value at self.parameters[par.name]", core.loc(mod, meths["addpar"]))
-    b = body("__init__")
-    ctx.check(any(txt(s) == "self.parameters=%s" % meths["__init__"].args.kwarg.arg for s in b if meths["__init__"].args.kwarg),
-              "C19:shape:__init__", "__init__ does not bind the store to its keyword arguments", core.loc(mod, meths["__init__"]))
-    # update_yourself / update_other
-    uy = txt(ast.Module(body=body("update_yourself"), type_ignores=[]))
-    o = arg("update_yourself", 1)
-    ok = ("fork,vinlist(self.parameters.items()):" in uy and "ifhasattr(%s,k):" % o in uy and "var=getattr(%s,k)" % o in uy
-          and "self.parameters[k]=var" in uy)
-    ctx.check(ok, "C19:shape:update_yourself", "update_yourself does not copy getattr(other, k) into the store for the keys other has",
-              core.loc(mod, meths["update_yourself"]))
-    uo = txt(ast.Module(body=body("update_other"), type_ignores=[]))
-    o = arg("update_other", 1)
-    ok = ("fork,vinlist(self.parameters.items()):" in uo and "ifhasattr(%s,k):" % o in uo and "setattr(%s,k,v)" % o in uo)
-    ctx.check(ok, "C19:shape:update_other", "update_other does not setattr(other, k, v) from the store for the keys other has",
-              core.loc(mod, meths["update_other"]))
-    # ---- vary list
-    b = body("get_variable_values")
-    ok = len(b) == 1 and isinstance(b[0], ast.Return) and isinstance(b[0].value, ast.ListComp) \
-        and txt(b[0].value) == "[self.parameters[name]fornameinself.varylist]"
-    ctx.check(ok, "C19:vary:get_variable_values", "get_variable_values is not [self.parameters[name] for name in self.varylist]",
-              core.loc(mod, meths["get_variable_values"]))
-    sv = [txt(s) for s in body("set_variable_values")]
-    v = arg("set_variable_values", 1)
-    ok = len(sv) == 2 and sv[0] == "assertlen(%s)==len(self.varylist)" % v and \
-        sv[1].replace("\n", "").replace("    ", "") == "forname,valueinzip(self.varylist,%s):self.parameters[name]=value" % v
-    ctx.check(ok, "C19:vary:set_variable_values",
-              "set_variable_values is not: assert equal lengths; for name, value in zip(self.varylist, values): store", core.loc(mod, meths["set_variable_values"]))
-    svl = meths["set_varylist"]
-    vl = arg("set_varylist", 1)
-    stores = [s for s in ast.walk(svl) if isinstance(s, ast.Assign) and self_attr(s.targets[0]) == "varylist"]
-    asserts = [txt(s.test) for s in ast.walk(svl) if isinstance(s, ast.Assert)]
-    last = core.body_wo_doc(svl)[-1]
-    ok = len(stores) == 1 and txt(stores[0].value) == vl and last is stores[0] and \
-        any("inself.variable_list" in a_ for a_ in asserts) and any("inks" in a_ or "inself.parameters" in a_ for a_ in asserts)
-    ctx.check(ok, "C19:vary:set_varylist",
-              "set_varylist does not assert that every name is a known, variable parameter and then store the list", core.loc(mod, svl))
-    # ---- file format
-    sp = txt(ast.Module(body=body("saveparameters"), type_ignores=[]))
-    ok_w = ("f.write('%s%s\\n'%(key,str(self.parameters[key])))" in sp.replace("%s %s", "%s%s") and "'%s %s\\n'" in core.unparse(meths["saveparameters"]).replace('"', "'"))
-    ok_keys = "keys=list(self.parameters.keys())" in sp and "forkeyinkeys:" in sp
-    ctx.check(ok_w and ok_keys, "C19:file:writer", "saveparameters does not write '<key> <str(value)>\\n' for every key of the store",
-              core.loc(mod, meths["saveparameters"]), sample={"writer": "'%s %s\\n' % (key, str(value))", "reader": "[name, value] = line.split(' ')"})
-    lp = txt(ast.Module(body=body("loadparameters"), type_ignores=[]))
-    ok_r = ("[name,value]=line.split('')" in lp or "name,value=line.split('')" in lp) and "name=name.replace('-','_')" in lp \
-        and "self.parameters[name]=value" in lp
-    # separator is exactly one blank on both sides (txt() strips blanks: look at the raw source)
-    raw = core.unparse(meths["loadparameters"]).replace('"', "'")
-    ok_sep = "line.split(' ')" in raw
-    ok_tc = body("loadparameters")[-1] and txt(body("loadparameters")[-1]) == "self.dumbtypecheck()"
-    ctx.check(ok_r and ok_sep and ok_tc, "C19:file:reader",
-              "loadparameters does not split each line at the single blank into exactly (name, value), replace '-' by '_' in the name, "
-              "store into self.parameters and finish with dumbtypecheck()", core.loc(mod, meths["loadparameters"]))
-    exc = [h for n_ in ast.walk(meths["loadparameters"]) if isinstance(n_, ast.Try) for h in n_.handlers]
-    ctx.check(len(exc) == 1 and getattr(exc[0].type, "id", "") == "ValueError", "C19:file:bad-lines",
-              "malformed lines are not skipped by catching the unpacking ValueError", core.loc(mod, meths["loadparameters"]))
-    # ---- coercion paths of dumbtypecheck
-    dt = meths["dumbtypecheck"]
-    loop = [s for s in core.body_wo_doc(dt) if isinstance(s, ast.For)]
-    if len(loop) != 1 or txt(loop[0].iter) != "list(self.parameters.items())":
-        raise AnalysisError("dumbtypecheck: loop over list(self.parameters.items()) not found")
-    nm, vl_ = [e.id for e in loop[0].target.elts]
-    scenarios = {
-        "non-string": dict(isstr=False),
-        "not-a-number": dict(isstr=True, float_ok=False),
-        "float-only": dict(isstr=True, float_ok=True, int_ok=False),
-        "integer": dict(isstr=True, float_ok=True, int_ok=True, equal=True),
-        "integer-unequal": dict(isstr=True, float_ok=True, int_ok=True, equal=False),
-    }
-    expected = {"non-string": vl_, "not-a-number": "strip(%s)" % vl_, "float-only": "float(%s)" % vl_,
-                "integer": "int(%s)" % vl_, "integer-unequal": "float(%s)" % vl_}
+    def where(name):
+        return core.loc(mod, meths[name])
+    va, vb = num_atom("va", "float"), Sym("wb", "word")
+    v2 = num_atom("v2", "float")
+    # ---- construction, get / set / get_parameters
+    w = World(mod)
+    p = w.new(ka=va, kb=vb)
+    st = store_of(p)
+    ctx.check(set(st) == {"ka", "kb"} and same(st["ka"], va) and same(st["kb"], vb), "C19:shape:__init__",
+              "__init__ does not bind the store to its keyword arguments: %s" % okey(st), where("__init__"))
+    ctx.check(same(w.call(p, "get", "ka"), va) and same(w.call(p, "get", "kb"), vb), "C19:shape:get",
+              "get(name) does not return the stored value", where("get"))
+    ctx.check(w.outcome(p, "get", "nokey") == ("raise", "KeyError"), "C19:shape:get:missing",
+              "get of an unknown name does not raise KeyError like a dictionary", where("get"))
+    w.call(p, "set", "ka", v2)
+    ctx.check(same(store_of(p)["ka"], v2) and same(store_of(p)["kb"], vb), "C19:shape:set",
+              "set(name, value) does not store value under name leaving the other names alone", where("set"))
+    gp = w.call(p, "get_parameters")
+    ctx.check(isinstance(gp, dict) and same(gp, store_of(p)), "C19:shape:get_parameters", "get_parameters does not return the store",
+              where("get_parameters"))
+    # ---- every mutator, then every getter
+    def apply_mutator(w, p, m):
+        """write v2 under ka (kb must keep vb); -> the value expected under ka afterwards"""
+        if m == "set":
+            w.call(p, "set", "ka", v2)
+        elif m == "set_parameters":
+            w.call(p, "set_parameters", {"ka": v2})
+        elif m == "addpar":
+            w.call(p, "addpar", w.par("ka", v2))
+        elif m == "set_variable_values":
+            w.call(p, "set_variable_values", [v2])
+        elif m == "update_yourself":
+            w.call(p, "update_yourself", w.other(ka=v2))
+        elif m == "loadparameters":
+            w.fs.files["in.par"] = [SStr(["ka", " ", Text("v2"), "\n"]).simplify()]
+            w.call(p, "loadparameters", "in.par")
+        return v2
 
-    class Done(Exception):
-        pass
-
-    def walk(stmts, sc, env, out):
-        for st in stmts:
-            if isinstance(st, ast.If):
-                t = txt(st.test)
-                if t in ("type(%s)==type('string')" % vl_, "isinstance(%s,str)" % vl_):
-                    walk(st.body if sc["isstr"] else st.orelse, sc, env, out)
-                elif t.startswith("abs(") and "<" in t:
-                    # abs(vi - vf) < eps
-                    walk(st.body if sc["equal"] else st.orelse, sc, env, out)
-                else:
-                    raise AnalysisError("dumbtypecheck: unrecognised test `%s`" % core.unparse(st.test))
-            elif isinstance(st, ast.Try):
-                call = st.body[0] if len(st.body) == 1 and isinstance(st.body[0], ast.Assign) else None
-                if call is None or not isinstance(call.value, ast.Call) or getattr(call.value.func, "id", "") not in ("float", "int") \
-                        or txt(call.value.args[0]) != vl_:
-                    raise AnalysisError("dumbtypecheck: unrecognised try block")
-                which = call.value.func.id
-                okk = sc.get(which + "_ok")
-                handler_ok = len(st.handlers) == 1 and getattr(st.handlers[0].type, "id", "") == "ValueError"
-                if not handler_ok:
-                    raise AnalysisError("dumbtypecheck: conversion failure is not caught as ValueError")
-                order.append(which)
-                if okk:
-                    env[call.targets[0].id] = "%s(%s)" % (which, vl_)
-                else:
-                    walk(st.handlers[0].body, sc, env, out)
-            elif isinstance(st, ast.Assign) and txt(st.targets[0]) == "self.parameters[%s]" % nm:
-                v = st.value
-                tv = txt(v)
-                if tv in ("%s.lstrip().rstrip()" % vl_, "%s.strip()" % vl_, "%s.rstrip().lstrip()" % vl_):
-                    out.append("strip(%s)" % vl_)
-                elif isinstance(v, ast.Name):
-                    out.append(env.get(v.id, v.id))
-                else:
-                    out.append(tv)
-            elif isinstance(st, ast.Continue):
-                raise Done()
-            elif isinstance(st, ast.Expr) and isinstance(st.value, ast.Constant):
+    def read_getter(w, p, g):
+        """-> the value the getter shows for ka"""
+        if g == "get":
+            return w.call(p, "get", "ka")
+        if g == "get_parameters":
+            return w.call(p, "get_parameters")["ka"]
+        if g == "get_variable_values":
+            out = w.call(p, "get_variable_values")
+            return out[0] if isinstance(out, (list, tuple)) and len(out) == 1 else out
+        if g == "update_other":
+            o = w.other(ka=Sym("stale", "other"))
+            w.call(p, "update_other", o)
+            return o.attrs["ka"]
+        if g == "saveparameters":
+            w.call(p, "saveparameters", "out.par")
+            for line in w.fs.files.get("out.par", []):
+                parts = line.parts if isinstance(line, SStr) else [line]
+                if parts and isinstance(parts[0], str) and parts[0].startswith("ka "):
+                    return SStr(parts[1:] if parts[0] == "ka " else [parts[0][3:]] + parts[1:]).simplify()
+            return None
+    getter_bad = {g: [] for g in GETTERS}
+    for m in MUTATORS:
+        for g in GETTERS:
+            w = World(mod)
+            p = varied(w, [("ka", va), ("kb", vb)], ["ka"])
+            try:
+                want = apply_mutator(w, p, m)
+                kept = same(store_of(p).get("kb"), vb)
+                wrote = same(store_of(p).get("ka"), want)
+                got = read_getter(w, p, g)
+            except (PyRaise, RaiseReached) as e:
+                ctx.fail("C19:store:writer:%s" % m, "%s followed by %s raises %s on the generic model" % (m, g, exc_name_of(e)), where(m))
                 continue
-            else:
-                raise AnalysisError("dumbtypecheck: unexpected statement `%s`" % core.unparse(st)[:50])
-    for name, sc in scenarios.items():
-        out, env, order = [], {}, []
-        try:
-            walk(loop[0].body, sc, env, out)
-        except Done:
-            pass
-        ok = out == [expected[name]]
-        if sc.get("isstr") and ok and len(order) >= 1:
-            ok = order[0] == "float"
-        ctx.check(ok, "C19:coerce:%s" % name,
-                  "for a %s value the store receives %s, expected %s (conversion order %s)" % (name, out, expected[name], order),
-                  core.loc(mod, dt), sample={"case": name, "stored": out})
-    ctx.not_decided += ["arbitrary histories as such: decided through per-method effect summaries and shapes, which give the "
+            if g == GETTERS[0]:
+                ctx.check(wrote, "C19:store:writer:%s" % m, "%s does not write the new value into self.parameters (store: %s)"
+                          % (m, okey(store_of(p))), where(m))
+                ctx.check(kept, "C19:store:single-binding" if m == "set_parameters" else "C19:store:keeps:%s" % m,
+                          "%s loses or changes a parameter it was not asked to change (store afterwards: %s)" % (m, okey(store_of(p))), where(m))
+            expect = SStr([Text("v2"), "\n"]).simplify() if g == "saveparameters" else want
+            if not same(got, expect):
+                getter_bad[g].append("%s (shows %s)" % (m, okey(got)))
+    for g in GETTERS:
+        ctx.check(not getter_bad[g], "C19:store:getter:%s" % g,
+                  "%s does not show the value last written by %s: values must come from self.parameters only (a getter that reads "
+                  "another attribute goes stale)" % (g, ", ".join(getter_bad[g][:3])), where(g),
+                  sample={"getter": g, "mutators": list(MUTATORS)} if g == "get_variable_values" else None)
+    # ---- addpar / update_*
+    w = World(mod)
+    p = w.new(ka=va)
+    w.call(p, "addpar", w.par("kc", v2))
+    ctx.check(same(store_of(p).get("kc"), v2) and same(store_of(p).get("ka"), va), "C19:shape:addpar",
+              "addpar does not store par.value at self.parameters[par.name]", where("addpar"))
+    w = World(mod)
+    p = w.new(ka=va, kb=vb)
+    o = w.other(ka=v2, unrelated=Sym("u", "other"))
+    w.call(p, "update_yourself", o)
+    stt = store_of(p)
+    ctx.check(same(stt.get("ka"), v2) and same(stt.get("kb"), vb) and set(stt) == {"ka", "kb"}, "C19:shape:update_yourself",
+              "update_yourself does not copy getattr(other, k) into the store for exactly the keys other has: %s" % okey(stt),
+              where("update_yourself"))
+    w = World(mod)
+    p = w.new(ka=va, kb=vb)
+    o = w.other(ka=Sym("old", "other"), unrelated=Sym("u", "other"))
+    w.call(p, "update_other", o)
+    ctx.check(same(o.attrs.get("ka"), va) and "kb" not in o.attrs and same(o.attrs.get("unrelated"), Sym("u", "other"))
+              and same(store_of(p), {"ka": va, "kb": vb}), "C19:shape:update_other",
+              "update_other does not setattr(other, k, v) from the store for exactly the keys other already has: %s" % okey(o.attrs),
+              where("update_other"))
+    # ---- vary list
+    x1, x2 = num_atom("x1", "float"), num_atom("x2", "float")
+    for order in (["kb", "ka"], ["ka", "kb"]):
+        w = World(mod)
+        p = varied(w, [("ka", va), ("kb", vb)], order)
+        tag = "" if order[0] == "kb" else ":addition-order"
+        ctx.check(isinstance(p.attrs.get("varylist"), (list, tuple)) and list(p.attrs["varylist"]) == order, "C19:vary:set_varylist" + tag,
+                  "after set_varylist(%s) the vary list is %s" % (order, p.attrs.get("varylist")), where("set_varylist"))
+        got = w.call(p, "get_variable_values")
+        want = [{"ka": va, "kb": vb}[n_] for n_ in order]
+        ctx.check(isinstance(got, (list, tuple)) and len(got) == 2 and all(same(a, b) for a, b in zip(got, want)),
+                  "C19:vary:get_variable_values" + tag, "get_variable_values is not [self.parameters[name] for name in the order given "
+                  "to set_varylist]: %s for %s" % (okey(got), order), where("get_variable_values"))
+        w.call(p, "set_variable_values", [x1, x2])
+        stt = store_of(p)
+        ctx.check(same(stt.get(order[0]), x1) and same(stt.get(order[1]), x2), "C19:vary:set_variable_values" + tag,
+                  "set_variable_values does not store the values under the names in vary-list order: %s for %s" % (okey(stt), order),
+                  where("set_variable_values"))
+    w = World(mod)
+    p = varied(w, [("ka", va)], ["ka"])
+    w.call(p, "addpar", w.par("kfixed", vb))
+    res = [w.outcome(p, "set_varylist", ["nokey"]), w.outcome(p, "set_varylist", ["kfixed"]), w.outcome(p, "set_variable_values", [x1, x2])]
+    ctx.check(all(r == ("raise", "AssertionError") for r in res), "C19:vary:asserts",
+              "an unknown name, a name that cannot vary, or a wrong number of values is not rejected by an assertion: %s" % res,
+              where("set_varylist"))
+    # ---- file format: writer
+    vi, ww = num_atom("vi", "int"), Sym("ww", "word")
+    w = World(mod)
+    p = w.new(ka=va, kb=vi, kc=ww, kd="")
+    w.call(p, "saveparameters", "out.par")
+    lines = sorted(okey(l_) for l_ in w.fs.files.get("out.par", []))
+    want = sorted(okey(SStr([k_, " ", t_, "\n"]).simplify()) for k_, t_ in (("ka", Text("va")), ("kb", Text("vi")), ("kc", ww), ("kd", "")))
+    closed = ("close", "out.par", "w") in w.fs.events
+    ctx.check(lines == want and closed, "C19:file:writer", "saveparameters does not write '<key> <str(value)>\\n' for every key of the "
+              "store and close the file: %s" % lines, where("saveparameters"),
+              sample={"writer": "'%s %s\\n' % (key, str(value))", "lines": lines[:2]})
+    # ---- reader on hand-written lines
+    w = World(mod)
+    p = w.new(keep=va)
+    w.fs.files["in.par"] = ["ka 1.5\n", "k-e 2\n", "garbage\n", "a b c\n", "kw word\n", "\n"]
+    kind, exc = w.outcome(p, "loadparameters", "in.par")
+    stt = store_of(p)
+    ok_names = kind == "ok" and set(stt) == {"keep", "ka", "k_e", "kw"}
+    ctx.check(ok_names, "C19:file:reader", "loadparameters does not split each line at the single blank into exactly (name, value), "
+              "replace '-' by '_' in the name and store into self.parameters (outcome %s, names %s)" % ((kind, exc), sorted(stt)),
+              where("loadparameters"), sample={"lines": w.fs.files["in.par"], "names": sorted(stt)})
+    ctx.check(kind == "ok" and "garbage" not in stt and "a" not in stt, "C19:file:bad-lines",
+              "malformed lines are not skipped (outcome %s)" % ((kind, exc),), where("loadparameters"))
+    if ok_names:
+        okv = same(stt["ka"], Rat.const(3) / 2) and same(stt["k_e"], Rat.const(2)) and same(stt["kw"], "word") and same(stt["keep"], va)
+        ctx.check(okv, "C19:file:reader:values", "values read from the file are not type-checked after loading: %s" % okey(stt),
+                  where("loadparameters"))
+    # ---- save -> load round trip per kind of value
+    for label, val in (("float", va), ("int", vi), ("word", ww), ("empty-string", "")):
+        w = World(mod)
+        p = w.new(kx=val, ky=va)
+        w.call(p, "saveparameters", "rt.par")
+        q = w.new()
+        kind, exc = w.outcome(q, "loadparameters", "rt.par")
+        stt = store_of(q)
+        ctx.check(kind == "ok" and set(stt) == {"kx", "ky"} and same(stt["kx"], val) and same(stt["ky"], va), "C19:file:roundtrip:%s" % label,
+                  "a %s value does not survive saveparameters -> loadparameters: wrote %s, read back %s"
+                  % (label, [okey(l_) for l_ in w.fs.files.get("rt.par", [])], okey(stt)), where("loadparameters"),
+                  sample={"kind": label, "file": [okey(l_) for l_ in w.fs.files.get("rt.par", [])]} if label == "int" else None)
+    # ---- dumbtypecheck per kind
+    cases = {
+        "non-string": (va, va), "object": (Sym("o", "other"), Sym("o", "other")),
+        "not-a-number": (SStr(["  ", ww, " \n"]), ww), "float-only": (SStr([" ", Text("va"), "\n"]), va),
+        "integer": (SStr([Text("vi"), "\n"]), vi), "word": (ww, ww),
+    }
+    for name, (val, want) in cases.items():
+        w = World(mod)
+        p = w.new(kx=val, ky=va)
+        kind, exc = w.outcome(p, "dumbtypecheck")
+        stt = store_of(p)
+        ctx.check(kind == "ok" and same(stt.get("kx"), want) and same(stt.get("ky"), va), "C19:coerce:%s" % name,
+                  "for a %s value the store receives %s, expected %s (outcome %s)" % (name, okey(stt.get("kx")), okey(want), (kind, exc)),
+                  where("dumbtypecheck"), sample={"case": name, "stored": okey(stt.get("kx"))})
+    ctx.not_decided += ["arbitrary histories as such: decided through all (mutator, getter) pairs on the generic model, which give the "
                         "dictionary model by induction over the call sequence",
                         "float -> str -> float is bit exact (language guarantee of repr); values containing blanks are outside the format"]
-    ctx.assumptions += ["Python dict/list semantics; str(float) == repr(float)"]
-    return ("parameters.parameters decided as a dictionary model over one store: effect summaries of every getter and mutator, "
-            "shapes of the accessors, varylist order in getter and setter, writer/reader agreement of the file format with the "
-            "hyphen rule and the post-load type check, and the five coercion paths of dumbtypecheck.")
+    ctx.assumptions += ["Python dict/list semantics; float(repr(x)) == x; int(str(i)) == i; int() rejects the text of a float",
+                        "the code treats names uniformly: the generic names ka, kb, ... stand for any names"]
+    return ("parameters.parameters evaluated by E7 on generic models: construction, all %d x %d (mutator, getter) pairs with preservation of "
+            "untouched names, vary-list order in getter and setter with its assertions, writer format, reader on hand-written lines "
+            "(hyphen rule, malformed lines), save/load round trips per kind of value and the coercion of dumbtypecheck per kind."
+            % (len(MUTATORS), len(GETTERS)))
